@@ -699,7 +699,7 @@ def hardening_streams(tier, rng):
         cases.append((505, a))
         if n in NEAR_256 or n % 64 in (0, 1, 63) or big:
             pkt = _layout_fast(*a[0], a[1])
-            cases.append((502, [pkt + pc.rbytes(rng, rng.choice([0, 1, 2, 255]))]))
+            cases.append((502, [pkt + pc.rbytes(rng, rng.choice([0, 1, 2, 255, 1000]))]))
             cases.append((503, [pkt]))
             cases.append((504, a))
     big_sizes = [4095, 4096, 4097, 65528, 65529] + ([8191, 8192, 16384, 32767, 32768, 65527] if big else [])
@@ -710,6 +710,8 @@ def hardening_streams(tier, rng):
             cases.append((504, a)); cases.append((503, [_layout_fast(*a[0], a[1])]))
     for n in (65530, 65531):
         cases.append((501, [[17, 1, 1, 1, 1, 15], [0] * n])); cases.append((504, [[17, 1, 1, 1, 1, 15], [0] * n]))
+    pkt = _layout_fast(17, 1, 1, 1, 1, 15, pc.rbytes(rng, 20))       # a long backlog behind the packet
+    cases.append((502, [pkt + pc.rbytes(rng, 70000)])); cases.append((503, [pkt + pkt * 40]))
     yield "size_sweep_pack_unpack", "exact", cases
     # B. three interacting boundary values at once: APID x count x source ID at their limits together with data
     #    lengths that put the length field on an octet boundary, and CRC values with special octets
@@ -778,7 +780,7 @@ def hardening_streams(tier, rng):
             d = pc.rbytes(rng, n)
             cases.append((520, base + [[7], [k] + d, [7], [8], [0], [10, 1, 2], [7], [8]]))
     for n in sizes:                                              # decoded from a receive buffer of every size, buffer reused
-        if n >= 250:
+        if n >= 250 and (big or abs(((n + 128) % 256) - 128) <= 2 or n == 1100):
             cases.append((520, _hist_params(rng, path=3, kind=1, n=n) + [[8], [7], [8]]))
             cases.append((520, _hist_params(rng, path=rng.choice([0, 1, 2]), kind=1, n=n) + [[7], [8], [7]]))
     for n in ((65520, 65527) if big else (65527,)):
